@@ -129,28 +129,20 @@ Theorem C07_str2str_unloaded : forall (hash : bytes -> N) s,
   s2s_get hash new_s2s s = Ok None /\ s2s_len new_s2s = Ok 0.
 Proof. exact s2s_unloaded. Qed.
 
-(* FINDING (zero value).  The clause "a map that was never loaded reports every key absent rather
-   than failing", read for the zero value Str2Str{} (which LoadFromSlice explicitly supports by
-   creating the inner map and store on demand), is refuted: Get and Len dereference the nil inner
-   map until a load has been accepted.  What remains true: instances from NewStr2Str
-   (C07_str2str_unloaded), and the zero value from its first accepted load on. *)
-Definition C07_str2str_zero_value_statement : Prop :=
-  forall (hash : bytes -> N) s, s2s_get hash zero_s2s s = Ok None /\ s2s_len zero_s2s = Ok 0.
+(* the zero value Str2Str{} (which LoadFromSlice supports by creating the inner map and store on
+   demand) reports every key absent and Len 0 while nothing has been loaded -- also after refused
+   loads.  (Was a finding: Get/Len dereferenced the nil inner map; repaired in /repo 0e27a5b.)
+   From its first accepted load on it is covered by C07_str2str_spec, which holds for every
+   previous state [st], the zero value included. *)
+Theorem C07_str2str_zero_value : forall (hash : bytes -> N) s,
+  s2s_get hash zero_s2s s = Ok None /\ s2s_len zero_s2s = Ok 0.
+Proof. exact s2s_zero_unloaded. Qed.
 
-Theorem C07_str2str_zero_value_statement_refuted : ~ C07_str2str_zero_value_statement.
-Proof. exact (fun H => s2s_zero_unloaded_false (fun _ => 0) (H (fun _ => 0))). Qed.
-
-Theorem C07_str2str_zero_value_panics : forall (hash : bytes -> N) s,
-  s2s_get hash zero_s2s s = Panic 6%Z /\ s2s_len zero_s2s = Panic 6%Z.
-Proof. exact s2s_zero_unloaded_panics. Qed.
-
-Theorem C07_str2str_zero_value_partial : forall (hash : bytes -> N) sort, sort_ok sort ->
-  forall kk vv s,
-  length kk = length vv -> NoDup kk -> loadable kk -> Forall small vv ->
-  snd (s2s_load hash sort zero_s2s kk vv) = Ok tt /\
-  s2s_get hash (fst (s2s_load hash sort zero_s2s kk vv)) s = Ok (assoc kk vv s) /\
-  s2s_len (fst (s2s_load hash sort zero_s2s kk vv)) = Ok (len kk).
-Proof. exact s2s_zero_loaded. Qed.
+Theorem C07_str2str_zero_value_refused_load : forall (hash : bytes -> N) sort kk vv s,
+  length kk <> length vv ->
+  s2s_get hash (fst (s2s_load hash sort zero_s2s kk vv)) s = Ok None /\
+  s2s_len (fst (s2s_load hash sort zero_s2s kk vv)) = Ok 0.
+Proof. exact s2s_zero_refused. Qed.
 
 (* ---------------- non-vacuity ---------------- *)
 
